@@ -79,13 +79,36 @@ TREE = {
     "err-nested.html": "c{% render 'err-type.html' %}",
     "err-syntax.html": "d{% if %}",
     "err-loads-syntax.html": "e{% include 'err-syntax.html' %}",
+    # interrupts that reach the top of a partial: included partials pass them to the caller's loop, rendered ones do not
+    "brk.html": "x{% break %}y",
+    "cont.html": "x{% continue %}y",
+    "loop-render-brk.html": "{% for i in arr %}{{ i }}{% render 'brk.html' %}z{% endfor %}|",
+    "loop-render-cont.html": "{% for i in arr %}{{ i }}{% render 'cont.html' %}z{% endfor %}|",
+    "loop-include-brk.html": "{% for i in arr %}{{ i }}{% include 'brk.html' %}z{% endfor %}|",
+    "loop-include-cont.html": "{% for i in arr %}{{ i }}{% include 'cont.html' %}z{% endfor %}|",
+    "render-for-brk.html": "a{% render 'brk.html' for arr as z %}b",
+    "include-for-cont.html": "a{% include 'cont.html' for arr as z %}b",
+    "top-render-brk.html": "a{% render 'brk.html' %}b",
+    "top-include-brk.html": "a{% include 'brk.html' %}b",
+    "block-brk.html": "{% for i in arr %}{% block x %}{{ i }}{% break %}{% endblock %}{% endfor %}",
     "cap.html": "{% capture c %}{% include 'p.html' %}{{ arr | join: '-' }}{% endcapture %}{{ c | upcase }}",
 }
 ENTRIES = sorted(TREE)
 
 
+class SlowCachingDictLoader(CachingDictLoader):
+    """A caching loader whose asynchronous source lookup really suspends once (a stand-in for any I/O-backed loader)."""
+
+    async def get_source_async(self, env: Any, template_name: str, *, context: Any = None, **kwargs: Any) -> Any:
+        import asyncio
+
+        await asyncio.sleep(0)
+        return self.get_source(env, template_name, context=context, **kwargs)
+
+
 def _loaders(root: str) -> dict[str, Any]:
     return {
+        "caching-slow": lambda: SlowCachingDictLoader(dict(TREE)),
         "dict": lambda: DictLoader(dict(TREE)),
         "caching-dict": lambda: CachingDictLoader(dict(TREE)),
         "caching-dict-ns": lambda: CachingDictLoader(dict(TREE), namespace_key="ns"),
@@ -138,6 +161,8 @@ def plan(tier: str, seed: int):
     combos = list(itertools.combinations_with_replacement(range(len(menu)), 2))
     if tier == "thorough":
         combos += list(itertools.combinations(range(len(menu)), 3))
+    # task sets share state only through a common loader/environment: keep the sets that use one loader kind
+    combos = [c for c in combos if len({menu[i][1] for i in c}) == 1]
     for c in combos:
         shards.append(("D", tier, seed, c))
     meta = {
@@ -387,23 +412,42 @@ def task_menu() -> list[tuple[str, str, dict[str, Any]]]:
         ("cap.html", "caching-dict", {"who": "C", "arr": [1, 2], "h": {"a": 7}}),
         ("sub/c.html", "caching-dict", {"g": 8, "h": {"a": 9}}),
         ("trans.html", "caching-dict", {"g": "T", "arr": [1, 2]}),
+        # a loader whose source lookup really suspends, and per-call globals: the same name requested concurrently
+        # with different globals must give each caller its own binding
+        ("p.html", "caching-fs", {"who": "F"}, {"h": {"a": "g1"}}),
+        ("p.html", "caching-fs", {"who": "G"}, {"h": {"a": "g2"}}),
+        ("p.html", "caching-slow", {"who": "F"}, {"h": {"a": "g1"}}),
+        ("p.html", "caching-slow", {"who": "G"}, {"h": {"a": "g2"}}),
+        ("cap.html", "caching-slow", {"arr": ["x"]}, {"h": {"a": "g3"}, "who": "H"}),
+        ("leaf.html", "caching-slow", {"arr": [7]}, {"h": {"a": "g4"}, "g": "G"}),
     ]
+
+
+def _menu_job(i: int) -> tuple[str, str, dict[str, Any], dict[str, Any] | None]:
+    m = task_menu()[i]
+    return (m[0], m[1], m[2], m[3] if len(m) > 3 else None)  # type: ignore[misc]
+
+
+def _shared_envs(jobs: list[tuple]) -> dict[str, Any]:
+    """One shared environment + caching loader per loader kind used by the task set."""
+    mk = _loaders(_STATE["root"])
+    return {l: Environment(loader=mk[l]()) for l in {j[1] for j in jobs}}
 
 
 def check_schedules(combo: tuple[int, ...], res: ShardResult | None, max_runs: int) -> list[tuple[str, Any, Any, Any]]:
     out: list[tuple[str, Any, Any, Any]] = []
     menu = task_menu()
-    jobs = [menu[i] for i in combo]
+    jobs = [_menu_job(i) for i in combo]
     # solo synchronous expectations (fresh environment each)
     expected = []
-    for entry, lname, d in jobs:
+    for entry, lname, d, g in jobs:
         env = Environment(loader=DictLoader(dict(TREE)))
-        expected.append(sync_outcome(lambda: env.get_template(entry).render(**seams.wrap_data(d))))
+        expected.append(sync_outcome(lambda: env.get_template(entry, globals=g).render(**seams.wrap_data(d))))
     seen_bad: set[str] = set()
 
     def run(loop: VLoop) -> Any:
-        env = Environment(loader=CachingDictLoader(dict(TREE)))  # one shared environment + caching loader
-        coros = [_job(env, entry, d) for entry, _l, d in jobs]
+        envs = _shared_envs(jobs)
+        coros = [_job(envs[l], entry, d, g) for entry, l, d, g in jobs]
         return loop.run_all(coros)
 
     def on_run(loop: VLoop, result: Any) -> None:
@@ -430,20 +474,19 @@ def check_schedules(combo: tuple[int, ...], res: ShardResult | None, max_runs: i
     return out
 
 
-async def _job(env: Any, entry: str, d: dict[str, Any]) -> str:
+async def _job(env: Any, entry: str, d: dict[str, Any], g: dict[str, Any] | None = None) -> str:
     import asyncio
 
-    t = await env.get_template_async(entry)
+    t = await env.get_template_async(entry, globals=g)
     await asyncio.sleep(0)  # an await point between loading and rendering
     return await t.render_async(**seams.wrap_data(d, yields=_STATE.get("yields", 1)))
 
 
 def replay_schedule(combo: tuple[int, ...], schedule: list[int]) -> list[tuple]:
-    menu = task_menu()
-    jobs = [menu[i] for i in combo]
+    jobs = [_menu_job(i) for i in combo]
     loop = VLoop(schedule)
-    env = Environment(loader=CachingDictLoader(dict(TREE)))
-    return [_classify(k, v) for k, v in loop.run_all([_job(env, e, d) for e, _l, d in jobs])]
+    envs = _shared_envs(jobs)
+    return [_classify(k, v) for k, v in loop.run_all([_job(envs[l], e, d, g) for e, l, d, g in jobs])]
 
 
 # ------------------------------------------------------------------ shards
@@ -507,9 +550,9 @@ def replay(case: dict[str, Any]) -> list[dict[str, Any]]:
         again = replay_schedule(combo, case["schedule"])
         assert got == again, "schedule replay is not deterministic"
         i = case["task"]
-        entry, _l, d = menu[combo[i]]
+        entry, _l, d, g = _menu_job(combo[i])
         env = Environment(loader=DictLoader(dict(TREE)))
-        e = sync_outcome(lambda: env.get_template(entry).render(**seams.wrap_data(d)))
+        e = sync_outcome(lambda: env.get_template(entry, globals=g).render(**seams.wrap_data(d)))
         if e != got[i]:
             res.violation(f"C03:concurrent-render-differs-from-solo:{entry}:{_kind(e, got[i])}", case, {"solo_sync": e}, {"concurrent": got[i]})
     return res.violations
